@@ -28,7 +28,7 @@ def CLASSIFY(c, real, msg):
 
 
 def streams(ctx):
-    n = 8 if ctx.thorough else 1
+    n = 16 if ctx.thorough else 1
     return [("tagged", "tagged", 600 * n), ("tagged-2hap", "tagged2", 300 * n), ("hap-named-input", "hapnames", 150 * n), ("hap-tags-other-case", "hapmix", 250 * n), ("target-mode-pieces-removed", "targetdrop", 200 * n), ("untagged", "script", 150 * n)]
 
 
